@@ -147,9 +147,34 @@ def check_continuity(case):
     return out
 
 
+def _nodes_queries(lo, hi):
+    """moon_passage_nodes asked at, and a minute either side of, an instant at which the Moon is ON the ecliptic: in
+    time order the answers never go backwards, and none of them is the query itself handed back (a passage through
+    the node of the requested kind lies within 0.01 day of a true latitude zero of that direction)."""
+    out = []
+    for target in ("ascending", "descending"):
+        qs = [lo - 60.0 / 86400.0, lo, hi, hi + 60.0 / 86400.0]
+        try:
+            rs = [Moon.moon_passage_nodes(Epoch(q), target).jde() for q in qs]
+        except Exception as ex:
+            out.append(("nodes_exception", "moon_passage_nodes(%r, %r) raised %r" % (lo, target, ex), None))
+            continue
+        for a, b, qa, qb in zip(rs, rs[1:], qs, qs[1:]):
+            if b < a - 1e-6:
+                out.append(("nodes_backwards", "moon_passage_nodes(%s): query %r gets JDE %r, the earlier query %r got %r"
+                            % (target, qb, b, qa, a), a - b))
+        if len(set(round(r, 4) for r in rs)) > 2:
+            out.append(("nodes_scatter", "moon_passage_nodes(%s) for four queries within two minutes of JDE %r gives %r"
+                        % (target, lo, rs), None))
+    return out
+
+
 def run_latitude_zeros(spec, ctx):
-    j, end = spec
-    f = lambda t: Moon.geocentric_ecliptical_pos(Epoch(t))[1]._deg
+    j, end = spec[0], spec[1]
+    if len(spec) > 2:
+        f = lambda t: Moon.geocentric_ecliptical_pos(Epoch(t))[2] - 385000.56
+    else:
+        f = lambda t: Moon.geocentric_ecliptical_pos(Epoch(t))[1]._deg
     prev = f(j)
     found = 0
     while j < end:
@@ -169,14 +194,17 @@ def run_latitude_zeros(spec, ctx):
                     hi = mid
             found += 1
             ctx.nt_count += 1
-            case = {"lo": lo, "hi": hi, "what": "latitude changes sign"}
+            case = {"lo": lo, "hi": hi, "what": "latitude changes sign" if len(spec) == 2 else "distance passes 385000.56 km"}
             for c in (case, {"lo": lo - 1e-6, "hi": lo, "what": "1e-6 d before the latitude changes sign"},
                       {"lo": hi, "hi": hi + 1e-6, "what": "1e-6 d after the latitude changes sign"}):
                 for site, msg, dev in check_continuity(c):
                     ctx.viol(c, msg, dev=dev, site="latitude_zero_" + site)
-            for t in (lo, hi):
+            for t in (lo, hi, math.nextafter(lo, -math.inf), math.nextafter(hi, math.inf)):
                 for site, msg, dev in check_position(t):
                     ctx.viol({"jde": t}, msg, dev=dev, site="latitude_zero_" + site)
+            if len(spec) == 2:
+                for site, msg, dev in _nodes_queries(lo, hi):
+                    ctx.viol({"lo": lo, "hi": hi, "nodes": True}, msg, dev=dev, site="latitude_zero_" + site)
         j, prev = j2, cur
     ctx.count("latitude_zero_crossings", found)
     ctx.outcome(found)
@@ -678,6 +706,12 @@ def clauses(tier):
         Clause("latitude_zeros", [(y2jde(y) + 100.0 * k, y2jde(y) + 100.0 * (k + 1))
                                   for y in ((-1990, -1000, 0, 1000, 2000, 3000, 3990) if tier == "thorough"
                                             else (-1990, 2000, 3990)) for k in range(6)],
+               run_latitude_zeros, lambda c: [m for _, m, _ in (_nodes_queries(c["lo"], c["hi"]) if c.get("nodes") else
+                                                               check_continuity(c) if "lo" in c
+                                                               else check_position(c["jde"]))], floor=100),
+        Clause("mean_distance_crossings", [(y2jde(y) + 100.0 * k, y2jde(y) + 100.0 * (k + 1), "distance")
+                                           for y in ((-1990, -1000, 0, 1000, 2000, 3000, 3990) if tier == "thorough"
+                                                     else (-1990, 2000, 3990)) for k in range(6)],
                run_latitude_zeros, lambda c: [m for _, m, _ in (check_continuity(c) if "lo" in c
                                                                else check_position(c["jde"]))], floor=100),
         Clause("argument_events", argument_event_specs(tier), run_argument_events,
